@@ -33,6 +33,16 @@ static int urldecode_tmp(char const *b, char const *e) { __CPROVER_assert(VALID_
 static void form_insert(int name, int value) { g_ins++; }
 '''
 
+PRE += r'''
+#include <stdio.h>
+/* std::istream over a part's temporary storage: content (p,n) and a get position; seekg / rdbuf()->sbumpc() as the C++ library defines them */
+struct istrm { char const *p; size_t n; size_t pos; };
+static void strm_seekg(struct istrm *s, size_t off) { __CPROVER_assert(off <= s->n, "seekg inside the stream"); s->pos = off; }
+static int strm_sbumpc(struct istrm *s) { if(s->pos >= s->n) return EOF; return (unsigned char)s->p[s->pos++]; }
+size_t g_rf_len, g_rf_k; bool g_rf_seen; char g_rf_val;
+static void rf_reset(void) { g_rf_len = 0; g_rf_seen = 0; }
+static void rf_put(char c) { if(g_rf_len == g_rf_k) { g_rf_seen = 1; g_rf_val = c; } g_rf_len++; }
+'''
 functions = [
     dict(cname='request_on_content_start', file=R, locate=lit('int request::on_content_start()'), sig='int request_on_content_start(struct req *self)',
          rewrites=[(r'd->content_length', 'self->content_length', 3), (r'd->limits\.multipart_form_data_limit\(\)', 'self->mp_limit', 1),
@@ -65,6 +75,19 @@ __CPROVER_assigns(g_ins)
 /* every range given to std::find / urldecode lies inside [begin,end] (stub assertions); terminates */
 __CPROVER_ensures(g_ins <= OFF(end) - OFF(begin) + 1)
 '''),
+    dict(cname='req_read_file', file=R, locate=lit('std::string read_file(size_t reserve,std::istream &in)'), sig='void req_read_file(size_t reserve, struct istrm *in)',
+         rewrites=[(r'std::string res;\s*res\.reserve\(reserve\);', 'rf_reset();', 1), (r'in\.seekg\((\w+)\)', r'strm_seekg(in, \1)', 0), (r'std::streambuf \*buf = in\.rdbuf\(\);', 'struct istrm *buf = in;', 1),
+                   (r'buf->sbumpc\(\)', 'strm_sbumpc(buf)', 1), (r'res\+=char\(c\);', 'rf_put((char)c);', 1), (r'return res;', 'return;', 1)],
+         loops={0: r'''
+__CPROVER_assigns(c, in->pos, g_rf_len, g_rf_seen, g_rf_val)
+__CPROVER_loop_invariant(in->pos <= in->n && g_rf_len == in->pos && g_rf_seen == (g_rf_k < g_rf_len) && (g_rf_seen ==> g_rf_val == in->p[g_rf_k]))
+__CPROVER_decreases(in->n - in->pos)'''},
+         contract=r'''
+__CPROVER_requires(__CPROVER_rw_ok(in, sizeof(*in)) && in->n <= BUF_CAP && __CPROVER_r_ok(in->p, in->n) && in->pos <= in->n)
+__CPROVER_assigns(in->pos, g_rf_len, g_rf_seen, g_rf_val)
+/* C12: the value of a form field is the WHOLE content of its part, from the first byte, wherever the stream's get position was left (a filter may have read it) */
+__CPROVER_ensures(g_rf_len == in->n && (g_rf_k < in->n ==> (g_rf_seen && g_rf_val == in->p[g_rf_k])))
+'''),
 ]
 
 jobs = [
@@ -78,6 +101,9 @@ jobs = [
     /* callers pass NUL-terminated storage (query string; std::string): one byte follows `end` */
     size_t n; __CPROVER_assume(n <= BUF_CAP); WIT_CAP(n); char *buf = malloc(n + 1); __CPROVER_assume(buf != NULL); g_ins = 0; WIT_BUF(0, buf, n);
     request_parse_form_urlencoded(buf, buf + n); VERIF_REACH;''', witness=dict(bufs=['in'])),
+    dict(name='req_read_file', props=['C12'], enforce='req_read_file', harness=r'''
+    struct istrm st; SYM_BUF(char, b, n, BUF_CAP); st.p = b; st.n = n; size_t pos, k, rs; st.pos = pos; g_rf_k = k;
+    req_read_file(rs, &st); VERIF_REACH;'''),
 ]
 
 UNIT = dict(
